@@ -61,6 +61,10 @@ CLAIMED = {
    text='Proof of the lock discipline (sequential): every forwarding member of allocator_storage<direct_storage<A>, Mutex> (throwing, composable; node/array) reaches the wrapped allocator only with the ghost mutex_held == 1 (precondition of every leaf member), takes the mutex exactly once and has released it on every exit including when the leaf or lock() throws; the lock() proxy is handed out with the mutex held, releases it exactly once on destruction, and a moved-from proxy releases nothing.',
    note='That a correct mutex then serialises all schedules, data-race freedom of stateless allocators, and the size-query members (max_node_size etc.) are not mechanised; stateless leaf (no_mutex selection) not instantiated.',
    ref='8 (C13)'),
+ 'C14': dict(
+   text='Sequential kernel only. Proof: temporary_allocator constructor (becomes the active allocator, records the previous one and the stack top marker at that moment) and destructor (the active allocator restores the previous one and unwinds the stack to exactly its construction marker -- each object restores exactly its own entry state, so any nesting unwinds correctly), is_active; temporary_stack_list::clear (memory released, marked free), create (the stack a thread gets is marked in use: claimed by find_unused and re-initialised, or brand new); get_temporary_stack / temporary_stack_initializer keep the one-thread invariant "temp_stack == 0 or it names a stack marked in use" (two proof cases). find_unused (CAS over the list links) is a bounded stand-in for lists of <= 3 stacks: null exactly when all are in use, otherwise a stack whose flag went false -> true in this call, all other flags unchanged. Known finding F-11 (the initializer destructor breaks the invariant) is listed in known_findings.txt with a native replay.',
+   note='thread_local and std::atomic read as plain variables (one thread\'s view). NOT covered and not expressible by contracts here: the schedule half of the property -- no two live threads share a stack under every interleaving, reuse of stacks across thread exit, exit-time freeing (nifty counter). memory_stack abstract (unit mstack).',
+   ref='8 (C14)'),
  'C15': dict(
    text='Proof: debug_handle_memory_leak calls the registered leak handler exactly once with the given amount; memory_pool<node_pool> allocator_traits allocate_node/deallocate_node call on_allocate / on_deallocate with the same quantity, only after a successful allocation.',
    note='Thin: object_leak_checker constructor/destructor/move and the global (stateless) checker are not yet under contract; listed in evidence under functions_under_contract only as far as proved.',
@@ -111,7 +115,6 @@ def main():
     json.dump(m, open(os.path.join(HERE, 'MANIFEST.json'), 'w'), indent=1)
 
 NA = {
- 'C14': 'not built yet for the sequential kernel (temporary_allocator ctor/dtor, temporary_stack_list); the schedule half (thread interleavings, cross-thread reuse) cannot be expressed by contracts in this family at all',
 }
 if __name__ == '__main__':
     main()
